@@ -896,9 +896,8 @@ def run_case(case):
         "steps": sim.steps,
         "case_digest": digest_of(case["ops"])[:16],
         "nontrivial": completed >= 3,
-        "sample": {"alt": case.get("alt"), "default_constant_type": case.get("default_constant_type"), "ops": case["ops"][:12]}
-        if n_ops <= 30 and completed >= 3
-        else None,
+        "sample": {"alt": case.get("alt"), "default_constant_type": case.get("default_constant_type"), "n_ops": len(case["ops"]),
+                   "first_ops": case["ops"][:12]},
     }
 
 
